@@ -28,6 +28,17 @@ def helper(same: bytes = b""):
     return same
 
 
+class ABase(object):
+    attr1: bytes = b"look-alike"
+
+    def meth(self, marg: bytes = b""):
+        return marg
+
+
+def fin_all(fnodef: bytes, farg: bytes = b"", *, fkw: bytes = b""):
+    return farg
+
+
 class A(object):
     attr1: str = "s"
 
@@ -44,6 +55,18 @@ x_const: float = 0.0
 
 
 def helper(same: int = 1):
+    return same
+
+
+class BBase(object):
+    battr: bytes = b"look-alike"
+    same: bytes = b"look-alike"
+
+    def bm(self, same: bytes = b"", other: bytes = b""):
+        return same
+
+
+def fout_all(same: bytes = b"", q: bytes = b""):
     return same
 
 
